@@ -649,6 +649,7 @@ type hdrFacts struct {
 	id        string
 	to, from  string // raw values ("" = absent)
 	junk      string // "" | what precedes the header
+	lang      string // value of xml:lang ("" = absent)
 }
 
 var genFacts = map[string]hdrFacts{} // key: framing flag + rendered header
@@ -727,6 +728,9 @@ func checkNeg(r *common.Run, c negCase, snaps []snap, ec string, lines []string)
 		}
 		// accepted: the recorded info is the header's
 		in := snaps[k].in
+		if f.lang != in.Lang {
+			r.Fail("header-info", "lang", lines, fmt.Sprintf("header %d: xml:lang is %q, recorded %q", k+1, f.lang, in.Lang))
+		}
 		if f.id != in.ID || in.Version.String() != "1.0" || (f.to != "" && in.To.String() != hto) || (f.from != "" && in.From.String() != hfrom) {
 			r.Fail("header-info", "info", lines, fmt.Sprintf("header %d accepted but recorded as %s", k+1, infoStr(in)))
 		}
@@ -1181,6 +1185,9 @@ type hv struct {
 	junk               string
 	noVersion, noXMLNS bool
 	dq                 bool // double quotes
+	// raw attribute text written before / after the regular attributes (namespace
+	// declarations, prefixed attributes); lang: the value of a genuine xml:lang among them
+	pre, post, lang string
 }
 
 func (h hv) render(ws bool) string {
@@ -1209,6 +1216,7 @@ func (h hv) render(ws bool) string {
 	default:
 		b.WriteString(h.name)
 	}
+	b.WriteString(h.pre)
 	if !h.noVersion {
 		b.WriteString(attr("version", h.version))
 	}
@@ -1221,6 +1229,7 @@ func (h hv) render(ws bool) string {
 	if h.from != "" {
 		b.WriteString(attr("from", h.from))
 	}
+	b.WriteString(h.post)
 	if ws || !h.open {
 		b.WriteString("/>")
 	} else {
@@ -1230,7 +1239,7 @@ func (h hv) render(ws bool) string {
 }
 
 func (h hv) facts(ws bool) hdrFacts {
-	f := hdrFacts{open: h.open && h.streamErr == "", streamErr: h.streamErr, version: h.version, xmlns: h.xmlns, id: h.id, to: h.to, from: h.from, junk: h.junk}
+	f := hdrFacts{open: h.open && h.streamErr == "", streamErr: h.streamErr, version: h.version, xmlns: h.xmlns, id: h.id, to: h.to, from: h.from, junk: h.junk, lang: h.lang}
 	if h.noVersion {
 		f.version = ""
 	}
@@ -1296,6 +1305,59 @@ func headerVariants(ws bool, from, to string) []string {
 		add(func(h *hv) { h.to = v })
 		add(func(h *hv) { h.from = v })
 	}
+	// attributes in other namespaces: only the unprefixed id / version / to / from / xmlns and
+	// xml:lang belong to the header; x:id, stream:version, xml:to … do not
+	decl := " xmlns:x='urn:example:x'"
+	if ws {
+		decl += " xmlns:stream='" + nsStream + "'"
+	}
+	good := map[string]string{"id": "s1", "version": "1.0", "to": to, "from": from, "xmlns": "jabber:client", "lang": "en"}
+	evil := map[string]string{"id": "evil", "version": "0.9", "to": "other.example", "from": "other.example", "xmlns": "jabber:evil", "lang": "xx"}
+	for _, pfx := range []string{"xml", "x", "stream"} {
+		for _, l := range []string{"id", "version", "to", "from", "xmlns", "lang"} {
+			pfx, l := pfx, l
+			genuine := pfx == "xml" && l == "lang"
+			// (1) only the prefixed attribute: the header lacks the plain one
+			add(func(h *hv) {
+				switch l {
+				case "id":
+					h.id = ""
+				case "version":
+					h.noVersion = true
+				case "to":
+					h.to = ""
+				case "from":
+					h.from = ""
+				case "xmlns":
+					h.noXMLNS = true
+				}
+				h.pre = decl
+				h.post = " " + pfx + ":" + l + "='" + nc.Esc(good[l]) + "'"
+				if genuine {
+					h.lang = good[l]
+				}
+			})
+			// (2) / (3) a conflicting prefixed attribute after / before the plain one
+			for _, before := range []bool{false, true} {
+				before := before
+				add(func(h *hv) {
+					a := " " + pfx + ":" + l + "='" + nc.Esc(evil[l]) + "'"
+					h.pre = decl
+					if before {
+						h.pre += a
+					} else {
+						h.post = a
+					}
+					if genuine {
+						h.lang = evil[l]
+					}
+				})
+			}
+		}
+	}
+	// a genuine xml:lang twice: the last one counts
+	add(func(h *hv) { h.post = " xml:lang='en' xml:lang='de'"; h.lang = "de" })
+	add(func(h *hv) { h.post = " xml:lang='en'"; h.lang = "en" })
 	for _, n := range []string{"<stream xmlns='jabber:client'", "<stream:features xmlns:stream='" + nsStream + "'", "<open xmlns='" + nsFraming + "'", "<stream:stream xmlns:stream='urn:wrong' xmlns='jabber:client'", "<close xmlns='" + nsFraming + "'", "<iq xmlns='jabber:client'"} {
 		n := n
 		add(func(h *hv) { h.open = false; h.name = n })
@@ -1359,6 +1421,18 @@ func Run(r *common.Run) error {
 
 	// ---- several sessions binding on one feature value ----
 	genConcBind(r)
+	for _, k := range []int{2, 3, 5} {
+		for _, mode := range []string{"seq", "par"} {
+			for _, remote := range []string{"user@example.net", "user@example.net/old"} {
+				if r.Race() && mode == "seq" {
+					continue
+				}
+				for rep := 0; rep < r.Pick(2, 10); rep++ {
+					runBindFresh(r, mode, k, remote, "bind-fresh-"+mode)
+				}
+			}
+		}
+	}
 	if r.Race() {
 		return nil
 	}
@@ -1580,6 +1654,11 @@ func replayLine(r *common.Run, l string) error {
 		} else {
 			runHdr(r, hdrCase{recv: true, ws: ws, s2s: s2s, loc: from, orig: to, lang: lang}, "replay")
 		}
+		return nil
+	case f[0] == "bindr" && len(f) == 4:
+		k := 0
+		fmt.Sscanf(f[2], "%d", &k)
+		runBindFresh(r, f[1], k, un(f[3]), "replay")
 		return nil
 	case f[0] == "concb" && len(f) >= 3:
 		return replayConcBind(r, f)
